@@ -32,7 +32,8 @@ MANIFEST = dict(
          "is Z/Q. NOT modelled (external crates; only round-tripped on the implementation and compared with Python's base64/gzip/json): "
          "base64_encode/decode, compress/decompress, json_encode/json_decode, and the parser that reads JSON text / repr output as a "
          "Noulith literal. f64 parsing in number(s) is a parameter of the model. Exponents of huge magnitude (|e| > 5000) are exercised "
-         "only where the answer is immediate (i32 overflow paths); 10^(2^31) is never computed.",
+         "only where the answer is immediate (i32 overflow paths); 10^(2^31) is never computed. Known finding json-float-exp-plus "
+         "(JSON float text 1e+21 is not a Noulith literal; lexer, C15's area) is matched structurally and reported, not failed.",
     design="6-C16")
 
 I63 = 2 ** 63
@@ -637,10 +638,12 @@ def gen_render(ctx):
         reps = [("S", lit(n)), ("B", big_expr(n, 0)), ("B", big_expr(n, 1))] if small_ok else [("B", lit(n))]
         want = [S(py_fmt(n, "d"))] * 3 + [S(py_fmt(n, f)) for f in ("x", "X", "b", "o", "d")]
         for rep, X in reps:
-            cases.append(case("render", f"x := {X}; [str(x), \"\" $ x, F\"{{x}}\", F\"{{x #x}}\", F\"{{x #X}}\", F\"{{x #b}}\", F\"{{x #o}}\", F\"{{x #d}}\", is_big(x)]",
-                              expect="ok L[" + ",".join(want) + f",I{1 if rep == 'B' else 0}]",
-                              mfmt="L[{0},{0},{0},{1},{2},{3},{4},{0}," + f"I{1 if rep == 'B' else 0}]",
+            cases.append(case("render", f"x := {X}; [str(x), \"\" $ x, F\"{{x}}\", F\"{{x #x}}\", F\"{{x #X}}\", F\"{{x #b}}\", F\"{{x #o}}\", F\"{{x #d}}\"]",
+                              expect="ok L[" + ",".join(want) + "]",
+                              mfmt="L[{0},{0},{0},{1},{2},{3},{4},{0}]",
                               m=[[f"fmt {f} {rep} {n}", "S"] for f in FMTS], nt=n < 0 or n > 9, neg=n < 0, rep=rep))
+            # which representation the spelling really produced is recorded (coverage), never judged
+            cases.append(case("render-probe", f"is_big({X})", nt=False, rep=rep))
             cases.append(case("render-print", f"print({X}); write({X}); echo({X}); print([{X}], {X})", obs="out",
                               expect="ok O" + json.dumps(f"{n}\n{n}{n}[{n}] {n}\n"), m=[[f"fmt d {rep} {n}", "S"]],
                               mfmt="O{0}\\n{0}{0}[{0}] {0}\\n", nt=n < 0 or n > 9, rep=rep))
@@ -782,6 +785,8 @@ def evaluate(ctx, cases, runner):
         k += n
         c["model_says"] = mod
         crashed = obs in ("panic", "hang", "abort", "badjson") or (obs == "parse" and c["fam"] not in ("json-as-literal",) and not c["src"].startswith("rational"))
+        if c["fam"] == "render-probe":
+            continue
         if c.get("check"):
             ok, detail = check_custom(c, obs, follow.get(i))
             c["check_detail"] = detail
@@ -830,6 +835,25 @@ def run(ctx):
     cases = gen_cases(ctx)
     bad = evaluate(ctx, cases, runner)
     seen = report(ctx, bad)
+    release_checked = 0
+    if not ctx.quick():
+        # the baseline is a debug build (overflow panics); a release build must give the same answers
+        okr, outr = common.build_harness(release=True)
+        if okr:
+            sub = [c for c in cases if not c.get("check") and (c["fam"].startswith("rational") or c["fam"] in ("render", "radix", "int-str"))]
+            sub = sub[::max(1, len(sub) // 6000)]
+            rres = common.run_prog([c["src"] for c in sub], timeout=20.0, release=True)
+            rbad = []
+            for c, r in zip(sub, rres):
+                o = observed(c, r)
+                release_checked += 1
+                if o != c["impl"]:
+                    c2 = dict(c)
+                    c2["impl"], c2["impl_msg"], c2["fam"] = o, r.get("msg"), c["fam"] + "/release"
+                    rbad.append(("property" if (c["expect"] is not None and o != c["expect"]) or o in ("panic", "hang", "abort") else "correspondence", c2))
+            seen.update(report(ctx, rbad))
+        else:
+            common.log("[C16] release harness did not build: " + outr[-500:])
     fams = sorted({c["fam"] for c in cases})
     nt = {c["src"] for c in cases if c["nt"]}
     ctx.coverage.update({
@@ -848,8 +872,13 @@ def run(ctx):
         "model_lines": sum(len(c["m"]) for c in cases),
         "oracle_compared": sum(1 for c in cases if c["expect"] is not None or c.get("check")),
         "negative_rationals": sum(1 for c in cases if c["fam"] == "rational" and c.get("neg")),
-        "big_representation_renders": sum(1 for c in cases if c.get("rep") == "B"),
+        "big_representation_renders": sum(1 for c in cases if c.get("rep") == "B" and c["fam"] == "render"),
+        "representation_confirmed_by_is_big": {
+            "spelled_big_and_is_big": sum(1 for c in cases if c["fam"] == "render-probe" and c.get("rep") == "B" and c["impl"] == "ok I1"),
+            "spelled_small_and_not_big": sum(1 for c in cases if c["fam"] == "render-probe" and c.get("rep") == "S" and c["impl"] == "ok I0"),
+            "probes": sum(1 for c in cases if c["fam"] == "render-probe")},
         "disagreements_by_kind": {f"{k[0]}/{k[1]}": v for k, v in seen.items()},
+        "release_build_cross_checked": release_checked,
     })
     ctx.assumptions += ["BigInt/Ratio<BigInt> arithmetic of num-bigint/num-rational is exact (Z, Q)",
                         "str::find/trim/strip_prefix, char::to_digit/from_digit/from_u32, String::from_utf8 mean what the model says",
